@@ -53,6 +53,12 @@ def gen_cases(rng, tier):
     for obs in ('finalizer', 'finalizer_stats'):
         for n_, at in ((5, 2), (150, 120), (3, 0)):
             cases.append({'kind': 'abort', 'sizes': [n_], 'obs': obs, 'at': at, 'prefix': 'none', 'suffix': 'none'})
+    # fields that carry titles, after another dumper of the same process has written a package with use_titles=True: what this
+    # dumper writes is headed by the field names its descriptor lists (round 8)
+    for obs in ('dump', 'dump_noforce'):
+        for warm in (True, False):
+            cases.append({'kind': 'observer', 'sizes': [3, 2], 'obs': obs, 'suffix': 'none', 'prefix': 'titles', 'warm_titles': warm,
+                          **({'odd': []} if obs == 'dump_noforce' else {})})
     for odd in ([0], [1], [0, 2], []):
         cases.append({'kind': 'observer', 'sizes': [3, 4, 2], 'obs': 'dump_noforce', 'suffix': 'none', 'prefix': 'none', 'odd': odd})
     return cases
@@ -121,10 +127,21 @@ def canon_desc(dp, stamps_ok):
     return out
 
 
+def _set_titles(package):
+    for res in package.pkg.descriptor['resources']:
+        for f in res['schema']['fields']:
+            f['title'] = 'The %s column' % f['name']
+    yield package.pkg
+    yield from package
+
+
 def run_impl(case):
     wd = os.path.join(scratch(), 'c5_%s' % digest(case))
     shutil.rmtree(wd, ignore_errors=True)
     os.makedirs(wd)
+    if case.get('warm_titles'):
+        with quiet():
+            Flow([{'k': 1, 'city': 'x'}], _set_titles, DF.dump_to_path(os.path.join(wd, 'warm'), use_titles=True)).process()
     sizes = case['sizes']
     names = ['res_%d' % (i + 1) for i in range(len(sizes))]
     calls = []
@@ -140,6 +157,8 @@ def run_impl(case):
         if case['prefix'] == 'surrogate':
             # a legal str with lone surrogates (what os.fsdecode gives for undecodable bytes) and other awkward characters
             p.append(DF.add_field('s', 'string', 'r\udce9sum\udce9 \u2028 \x00 \U0001d11e'))
+        if case['prefix'] == 'titles':
+            p.append(_set_titles)
         if case['prefix'] == 'empty_first':
             p.append(DF.filter_rows(condition=lambda r: False, resources=names[0]))
         for j in [j for j in case.get('odd', []) if j < len(names)]:
